@@ -523,6 +523,28 @@ func (v *FV) havocField(env *ExprEnv, st *State, base TV, name string) ([]touche
 	if !ok {
 		return nil, fmt.Errorf("modifies: .%s on non-struct", name)
 	}
+	if l, isLoc := v.ptrLocs[base.T]; isLoc {
+		// the pointer denotes a struct value held in a slice / array element: the field of that
+		// value changes (write through), not a heap object of its own
+		for i := 0; i < su.NumFields(); i++ {
+			if su.Field(i).Name() == name {
+				ft := su.Field(i).Type()
+				fresh := v.declare("hv_elt_"+mangle(name), v.sortOf(ft))
+				if v.isRefType(ft) {
+					v.assume(st.reach, v.refOK(fresh))
+				} else {
+					v.assume(st.reach, v.typeFacts(fresh, ft))
+				}
+				v.store(st, &Loc{kind: 6, inner: l, st: stT, fi: i, ty: ft}, fresh)
+				root := l
+				for root.inner != nil {
+					root = root.inner
+				}
+				return []touched{{arr: root.arr, ref: root.ref}}, nil
+			}
+		}
+		return nil, fmt.Errorf("modifies: no field %s in %v", name, stT)
+	}
 	for i := 0; i < su.NumFields(); i++ {
 		if su.Field(i).Name() == name {
 			ft := su.Field(i).Type()
